@@ -7,6 +7,15 @@ VERIF = os.path.dirname(os.path.dirname(os.path.abspath(__file__)))
 ALL = ["C%02d" % i for i in range(1, 18)]
 
 CHECKS = {
+    "C01": {'level': 'model_checking', 'design': '6 (C01), 3.5-3.7', 'text': 'Wire.tla defines Layout declaratively; MCWire checks it exhaustively on a bounded universe (SegsAreLayout, SegmentsTile, RoundTrip ...). TLC (DslGen.tla) enumerates every program cell x option setting; each is compiled by the real CLI, the emitted encoders of Go, Rust, Java, Python and C++ are built against reference runtimes and run on a value-class sweep; every enc event is validated by TLC: bytes = Layout(p, m), first divergent field named from Segments.', 'note': "Trusted: the reference codec runtimes and drivers in /verif/runtimes (written for this project; DESIGN 4.4), the target toolchains; values are drawn from the domain MCWire derives. Cells whose emitted code does not build are invisible here and reported under C07. The harness's own reference encoder is not trusted (TLC checks ref = Layout on every message).", 'technique': 'TLC model checking of Wire.tla (MCWire) + TLC-generated programs (DslGen) compiled and run in 5 languages + TLC trace validation (TraceCodec)'},
+    "C02": {'level': 'model_checking', 'design': '6 (C02), 3.5', 'text': 'Same programs; every decoder is fed Layout(p,m) followed by tails <<>>, <<EE>>, <<FF FF 00 01>>; TLC validates value = Norm(p,m), consumed = Len(Layout), re-encoding = Layout for every dec event. MCWire proves RoundTrip on the specification and derives the value domain.', 'note': "Trusted: the reference codec runtimes and drivers in /verif/runtimes (written for this project; DESIGN 4.4), the target toolchains; values are drawn from the domain MCWire derives. Cells whose emitted code does not build are invisible here and reported under C07. The harness's own reference encoder is not trusted (TLC checks ref = Layout on every message).", 'technique': 'TLC model checking of Wire.tla (MCWire) + TLC-generated programs (DslGen) compiled and run in 5 languages + TLC trace validation (TraceCodec)'},
+    "C03": {'level': 'model_checking', 'design': '6 (C03), 3.7', 'text': 'Agreement matrix: TLC compares the bytes of all encoders per message (agree events: who drifts from the canonical layout) and every decoder is run on the canonical bytes the other languages produce; a language whose encoder or decoder deviates is reported per cell.', 'note': "Trusted: the reference codec runtimes and drivers in /verif/runtimes (written for this project; DESIGN 4.4), the target toolchains; values are drawn from the domain MCWire derives. Cells whose emitted code does not build are invisible here and reported under C07. The harness's own reference encoder is not trusted (TLC checks ref = Layout on every message).", 'technique': 'TLC model checking of Wire.tla (MCWire) + TLC-generated programs (DslGen) compiled and run in 5 languages + TLC trace validation (TraceCodec)'},
+    "C04": {'level': 'model_checking', 'design': '6 (C04)', 'text': "MCWire invariant LenOf on the specification; programs with a length-of field of every unsigned width, match and object targets, all payload alternatives incl. empty and > 255 bytes, caller-supplied garbage; TLC validates the length field's bytes in every enc event and the decoded value.", 'note': "Trusted: the reference codec runtimes and drivers in /verif/runtimes (written for this project; DESIGN 4.4), the target toolchains; values are drawn from the domain MCWire derives. Cells whose emitted code does not build are invisible here and reported under C07. The harness's own reference encoder is not trusted (TLC checks ref = Layout on every message).", 'technique': 'TLC model checking of Wire.tla (MCWire) + TLC-generated programs (DslGen) compiled and run in 5 languages + TLC trace validation (TraceCodec)'},
+    "C05": {'level': 'model_checking', 'design': '6 (C05)', 'text': 'MCWire invariants Dispatch / UnknownKeyFails; match tables of 5 forms x 7 key kinds; every key in the table is encoded and decoded (dynamic type of the payload observed), two keys outside the table are decoded (deckey events must report an error).', 'note': "Trusted: the reference codec runtimes and drivers in /verif/runtimes (written for this project; DESIGN 4.4), the target toolchains; values are drawn from the domain MCWire derives. Cells whose emitted code does not build are invisible here and reported under C07. The harness's own reference encoder is not trusted (TLC checks ref = Layout on every message).", 'technique': 'TLC model checking of Wire.tla (MCWire) + TLC-generated programs (DslGen) compiled and run in 5 languages + TLC trace validation (TraceCodec)'},
+    "C06": {'level': 'model_checking', 'design': '6 (C06)', 'text': 'MCWire invariant Cksum; checksum fields of 4 widths, registered (VSUM<w>) and unregistered algorithm, followed or last; TLC validates the checksum bytes in enc events and that every recorded calc call covered exactly the bytes preceding a checksum field.', 'note': "Trusted: the reference codec runtimes and drivers in /verif/runtimes (written for this project; DESIGN 4.4), the target toolchains; values are drawn from the domain MCWire derives. Cells whose emitted code does not build are invisible here and reported under C07. The harness's own reference encoder is not trusted (TLC checks ref = Layout on every message).", 'technique': 'TLC model checking of Wire.tla (MCWire) + TLC-generated programs (DslGen) compiled and run in 5 languages + TLC trace validation (TraceCodec)'},
+    "C07": {'level': 'exploration', 'design': '6 (C07), 3.8', 'text': "Pipeline.tla's lifecycle (Validate -> RunGen -> WriteFiles -> Build) gives the requirement; TLC-generated programs (every DslGen cell x options) plus name-shape / omitted-package cells are compiled for all six targets; whether the emitted files are valid programs is decided by the target toolchains (go, rustc, javac, g++, python ast, the harness Lua parser); marker texts and member inventories are observed; the recorded lifecycle is validated by TLC against TraceLifecycle.tla.", 'note': 'The deciding observer is the target toolchain, so the level is exploration; reference runtimes define the API; 199 known findings at this commit.', 'technique': 'TLC-generated programs + target toolchains as oracles + TLC validation of the recorded lifecycle (TraceLifecycle)'},
+    "C15": {'level': 'model_checking', 'design': '6 (C15), 4.5', 'text': "Wire!Segments gives every leaf field's byte range (SegmentsTile checked by MCWire); the emitted Lua dissector is interpreted (own Lua-subset interpreter with lexical name resolution + Wireshark stubs) over the canonical encoding of every sweep message of every DslGen program; TLC validates every recorded tree:add against Segments (field, offset, length), the end offset and the absence of Lua errors (TraceDissect).", 'note': 'Trusted: harness/lua_interp.py and lua_wireshark.py (345 unit checks), lenient about TreeItem:le_add / ProtoField.int; 83 known findings.', 'technique': 'TLC model checking of Wire.tla + interpretation of the emitted dissector + TLC trace validation (TraceDissect)'},
+    "C17": {'level': 'exploration', 'design': '6 (C17), 3.8', 'text': 'The self-tests fin-protoc emits for Go (real testify), Rust (rustc --test), Java (JUnit stand-in), Python (unittest), C++ (gtest stand-in) are built and run for every DslGen program; the recorded SelfTest lifecycle (builds, one test per declared packet, all pass) is validated by TLC against TraceLifecycle.tla.', 'note': 'JUnit and gtest are stand-ins with the same assertion semantics; toolchains decide validity (exploration).', 'technique': 'TLC-generated programs + running the emitted tests + TLC validation of the recorded lifecycle'},
     "C09": dict(
         level="model_checking", design="6 (C09), 3.9",
         text="Format.tla (document history machine: Format / Relayout(k) / Compile; ems never changes, errors only on invalid "
